@@ -509,20 +509,36 @@ func thresholdFromBoundedProbability(
 
 	// probability = 1 - (1-f)^sigma: since (1-f)^sigma's upper bound
 	// (hi) corresponds to probability's *lower* bound and vice versa.
-	probLo := new(big.Float).SetPrec(workPrec).Sub(one, hi)
-	probHi := new(big.Float).SetPrec(workPrec).Sub(one, lo)
+	//
+	// The subtraction and the scaling are rounded OUTWARD (lower bound
+	// toward -Inf, upper bound toward +Inf). With round-to-nearest, a
+	// (1-f)^sigma smaller than 2^-workPrec makes 1-hi and 1-lo both round
+	// to exactly 1, the interval collapses to [upperBound, upperBound] and
+	// is reported as resolved, although the true threshold is
+	// upperBound-1.
+	probLo := new(big.Float).SetPrec(workPrec).SetMode(big.ToNegativeInf).
+		Sub(one, hi)
+	probHi := new(big.Float).SetPrec(workPrec).SetMode(big.ToPositiveInf).
+		Sub(one, lo)
 
-	thresholdLoFloat := new(big.Float).SetPrec(workPrec).Mul(
-		probLo,
-		upperBoundFloat,
-	)
-	thresholdHiFloat := new(big.Float).SetPrec(workPrec).Mul(
-		probHi,
-		upperBoundFloat,
-	)
+	thresholdLoFloat := new(big.Float).SetPrec(workPrec).
+		SetMode(big.ToNegativeInf).Mul(probLo, upperBoundFloat)
+	thresholdHiFloat := new(big.Float).SetPrec(workPrec).
+		SetMode(big.ToPositiveInf).Mul(probHi, upperBoundFloat)
 
 	thresholdLo, _ := thresholdLoFloat.Int(nil)
 	thresholdHi, _ := thresholdHiFloat.Int(nil)
+
+	// This is only reached for 0 < 1-f < 1 and sigma > 0, where
+	// (1-f)^sigma > 0 strictly: the probability is strictly below 1 and
+	// the threshold is at most upperBound-1, however small (1-f)^sigma is.
+	maxThreshold := new(big.Int).Sub(upperBound, bigIntOne)
+	if thresholdHi.Cmp(maxThreshold) > 0 {
+		thresholdHi = maxThreshold
+	}
+	if thresholdLo.Cmp(maxThreshold) > 0 {
+		thresholdLo = maxThreshold
+	}
 
 	return thresholdLo, thresholdLo.Cmp(thresholdHi) == 0
 }
